@@ -28,6 +28,8 @@ THEOREMS = [
     "ESV.C07.renumber_order_preserving", "ESV.C07.renumber_bijective", "ESV.C07.jump_table_wellformed",
     "ESV.C07.jump_not_last_counterexample", "ESV.C07.generic_target_lost_counterexample",
     "ESV.C07.named_target_number_lost_counterexample", "ESV.C07.dangling_target_counterexample",
+    "ESV.C07.routine_id_checked", "ESV.C07.compile_result_is_routine_set", "ESV.C07.routine_id_rejected_examples",
+    "ESV.C07.repeated_routine_id_example",
 ]
 
 FIXED = [
